@@ -1,9 +1,10 @@
 """Scripted addon for C26: prints, for the analysed dump file, exactly the result lines the case prepared.
 
 Descriptor (generated per case): {"script": ".../fakeaddon_report.py", "python": "<interpreter>", "args": ["--lines-dir", "<dir>"]}
-cppcheck calls:  python runaddon.py fakeaddon_report.py --cli --lines-dir <dir> <file>.dump
-The lines for <file>.dump are the bytes of <dir>/<basename of the dump file>.lines (written verbatim: they may contain
-bytes that are not valid UTF-8).  No file for a dump (e.g. the whole-program .ctu-info call): nothing is printed.
+cppcheck calls:  python runaddon.py fakeaddon_report.py --cli --lines-dir <dir> <file>[.<pid>].dump
+The lines for the source file <file> are the bytes of <dir>/<basename of file>.lines (written verbatim: they may contain
+bytes that are not valid UTF-8).  No such file (e.g. the whole-program .ctu-info call): nothing is printed.
+(drivers/fakeaddon_report.sh is the same addon in the "executable" descriptor form.)
 """
 import os
 import sys
@@ -14,7 +15,14 @@ def main():
     if "--lines-dir" not in argv:
         return 0
     d = argv[argv.index("--lines-dir") + 1]
-    p = os.path.join(d, os.path.basename(argv[-1]) + ".lines")
+    b = os.path.basename(argv[-1])
+    if not b.endswith(".dump"):
+        return 0
+    b = b[:-5]
+    stem, _, ext = b.rpartition(".")
+    if stem and ext.isdigit():
+        b = stem
+    p = os.path.join(d, b + ".lines")
     if os.path.isfile(p):
         with open(p, "rb") as f:
             sys.stdout.buffer.write(f.read())
